@@ -12,6 +12,7 @@ import (
 	"flag"
 	"fmt"
 	"os"
+	"runtime/debug"
 	"sort"
 	"time"
 )
@@ -45,7 +46,22 @@ func main() {
 	r := NewRun(prop, *tier, *seed, *out)
 	rng = NewRng(mix(*seed, strHash(prop)))
 	watch(r, 60*time.Second)
-	f(r)
+	func() {
+		// a panic that escapes from the library through a call the harness did not guard ends the run; what was collected so far is
+		// kept, and the panic is a violation of its own ("never panics" is part of C09, C10 and C17, and no property allows one),
+		// reported with the call in flight when the harness had announced it
+		defer func() {
+			if p := recover(); p != nil {
+				c, _ := current.Load().(*inFlight)
+				in := map[string]interface{}{"panic": truncate(fmt.Sprint(p), 300), "stack": truncate(string(debug.Stack()), 1500)}
+				if c != nil {
+					in["call"], in["expression_or_input"], in["argument"] = c.what, c.text, describe(c.arg)
+				}
+				r.Violate("library-panics", "escaped-panic:"+truncate(fmt.Sprint(p), 80), in, "a panic escaped from a call into the library and ended the run: "+truncate(fmt.Sprint(p), 200))
+			}
+		}()
+		f(r)
+	}()
 	r.Finish()
 	fmt.Printf("%s: evaluations=%d distinct=%d model_lines=%d direct_violations=%d\n", prop, r.Evaluations, len(r.Distinct), r.lines, len(r.Violations))
 }
